@@ -270,3 +270,40 @@ func VK19eMaxSize() {
 		vrt.Assert(err != nil, "a blob over the maximum blob size is not copied")
 	}
 }
+
+// K19f: two sync destinations fed from one source: a queue failure of one handler during
+// an upload must not keep the other handler from enqueueing the blob ("all registered
+// hooks are run on each blob upload").
+func VK19fTwoDestinations() {
+	src := &vmodel.Store{}
+	toA, toB := &vmodel.Store{}, &vmodel.Store{}
+	qA, qB := &vmodel.KV{}, &vmodel.KV{}
+	shA := newSyncHandler("src", "A", src, toA, qA)
+	shB := newSyncHandler("src", "B", src, toB, qB)
+	hub := blobserver.GetHub(src)
+	hub.AddReceiveHook(shA.enqueue)
+	hub.AddReceiveHook(shB.enqueue)
+	vrt.Schedules(2)
+	br := blob.VerifSmallRef(10)
+	failing := vrt.Choice(3) // which queue fails its Set (2: none)
+	if failing == 0 {
+		qA.Fault = func(op string) bool { return op == "set" }
+	} else if failing == 1 {
+		qB.Fault = func(op string) bool { return op == "set" }
+	}
+	src.Put(br, []byte{1, 2})
+	err := hub.NotifyBlobReceived(blob.SizedRef{Ref: br, Size: 2})
+	if failing == 2 {
+		vrt.Assert(err == nil, "healthy notification succeeds")
+	} else {
+		vrt.Assert(err != nil, "a failing hook's error is reported")
+	}
+	if failing != 0 {
+		_, e := qA.Get(br.String())
+		vrt.Assert(e == nil, "the healthy sync handler (A) has the blob in its persistent queue")
+	}
+	if failing != 1 {
+		_, e := qB.Get(br.String())
+		vrt.Assert(e == nil, "the healthy sync handler (B) has the blob in its persistent queue")
+	}
+}
